@@ -2,7 +2,7 @@
 # Usage: sweep.sh <VERIF_SEED> [workers] [PROP ...]  -- run quick checks under another seed into a scratch dir (evidence/replays untouched)
 SEED=$1; W=${2:-4}; shift 2
 OUT=/tmp/sweep_$SEED; mkdir -p $OUT/evidence $OUT/replays
-cd /verif
+cd "$(dirname "$(readlink -f "$0")")/.."   # the tree this script lives in (a vp-run snapshot or /verif)
 PROPS=${@:-$(/venv/bin/python -c "import json;print(' '.join(x['property_id'] for x in json.load(open('MANIFEST.json'))['checks']))")}
 for c in $PROPS; do
   t0=$(date +%s)
